@@ -357,6 +357,18 @@ class World:
                     self.events.append((name, "try", self.classify(e)))
                     if self.closing:
                         raise
+            elif k == "tryu":
+                # like "try", for code that goes on afterwards: a caught cancellation is acknowledged (Task.uncancel),
+                # as asyncio.timeout and well-behaved handlers do
+                try:
+                    await self.block(name)
+                    self.events.append((name, "try", "return"))
+                except BaseException as e:  # noqa: BLE001
+                    self.events.append((name, "try", self.classify(e)))
+                    if self.closing:
+                        raise
+                    if isinstance(e, asyncio.CancelledError):
+                        asyncio.current_task().uncancel()
             elif k == "leave":
                 how = op[1]
                 if how == "return":
